@@ -95,5 +95,33 @@ def explained_by_exception_missing(x, recs, wits):
             return False
     return True
 
+def explained_by_adjacent_sites(x, wits):
+    """C01-nola-adjacent-sites (rules with an alternative WITHOUT look-ahead only): two cleavage sites one
+    residue apart give a single-residue node; since db08c8d a site on the end of a node is not split, and
+    joins across such nodes are occasionally (order dependent) lost.  A missing peptide matches iff EVERY
+    obliged derivation has two sites at distance 1 inside or bordering its span."""
+    if not wits:
+        return False
+    ss = O.call_many([sites_req(x, w['aas']) for w in wits])
+    for w, sites in zip(wits, ss):
+        S = sorted(set([0] + list(sites) + [len(w['aas'])]))
+        if not any(t == s + 1 and w['a'] - 1 <= s and t <= w['b'] + 1 for s, t in zip(S, S[1:])):
+            return False
+    return True
+
+def explained_by_softsite_missing(x, wits):
+    """D14b (rule look-behind evaluated per graph node): a missing peptide matches iff EVERY obliged
+    derivation has an endpoint at, or contains, a SOFT site: a rule site that exists only through an
+    alternative with look-behind (e.g. trypsin's (?<=W)K(?=P))."""
+    if not wits:
+        return False
+    alls = O.call_many([sites_req(x, w['aas']) for w in wits])
+    firms = O.call_many([('cv_firm_sites', [x, w['aas']]) for w in wits])
+    for w, a, f in zip(wits, alls, firms):
+        soft = [e for e in a if e not in f]
+        if not any(w['a'] <= e <= w['b'] for e in soft):
+            return False
+    return True
+
 def substring_realizable(x, p):
     return bool(O.call('cv_substring', [x, p]))
